@@ -128,6 +128,54 @@ example : 1 < exB16.height ∧ 3 < exB16.width ∧ 19 < exB16.depth ∧ 1 < exB1
     (exB16.nhcwb16 = true → 16 % 16 = 0) ∧ fmAddr exB16 1 3 19 + 1 = 487 ∧
     (canon exB16 (1 + 0) (3 + 0) (19 + 16) : Int) - (fmAddr exB16 1 3 19 : Int) = 128 := by decide
 
+/-! ### per-tile shifted footprint (`fmPiecesS`, used by the C03 machine)
+
+An operation may displace the base of each tile by its own offset (`tile_base_offsets`); the tag of a piece
+lying in tile `t` is then `canon − fmAddr + shifts[t]`. The bytes are those of `fmPieces` (so the bounds
+check, which uses `fmPieces`, covers them), only the tags differ. -/
+
+/-- 8S. coverage: the piece containing a byte of element `(y, x, c)` carries
+    `canon − fmAddr + shifts[tileOf fm y x]` (`tileOf` = the tile selection of `fmAddr`) -/
+theorem fmPiecesS_covers (fm : FM) (y0 x0 c0 : Nat) (shifts : List Int) (y x c k : Nat)
+    (hy : y < fm.height) (hx : x < fm.width) (hc : c < fm.depth) (hk : k < fm.elemBytes) :
+    ∃ p ∈ fmPiecesS fm y0 x0 c0 shifts, (p.addr ≤ fmAddr fm y x c + k ∧ fmAddr fm y x c + k < p.addr + p.len) ∧
+      ((fm.nhcwb16 = true → c0 % 16 = 0) →
+        p.delta = (canon fm (y + y0) (x + x0) (c + c0) : Int) - (fmAddr fm y x c : Int) +
+          tileShift shifts (tileOf fm y x)) :=
+  Footprint.fmPiecesS_covers fm y0 x0 c0 shifts y x c k hy hx hc hk
+
+/-- 9S. exactness of the shifted footprint -/
+theorem fmPiecesS_exact (fm : FM) (y0 x0 c0 : Nat) (shifts : List Int) (p : Piece)
+    (hp : p ∈ fmPiecesS fm y0 x0 c0 shifts) (B : Nat) (hB : p.addr ≤ B ∧ B < p.addr + p.len) :
+    ∃ y x c k, y < fm.height ∧ x < fm.width ∧ c < fm.depth ∧ k < fm.elemBytes ∧ B = fmAddr fm y x c + k ∧
+      ((fm.nhcwb16 = true → c0 % 16 = 0) →
+        p.delta = (canon fm (y + y0) (x + x0) (c + c0) : Int) - (fmAddr fm y x c : Int) +
+          tileShift shifts (tileOf fm y x)) :=
+  Footprint.fmPiecesS_exact fm y0 x0 c0 shifts p hp B hB
+
+/-- the shifts change tags only: same bytes as `fmPieces` -/
+theorem fmPiecesS_bytes_iff (fm : FM) (y0 x0 c0 : Nat) (shifts : List Int) (B : Nat) :
+    (∃ p ∈ fmPiecesS fm y0 x0 c0 shifts, p.addr ≤ B ∧ B < p.addr + p.len) ↔
+      (∃ p ∈ fmPieces fm y0 x0 c0, p.addr ≤ B ∧ B < p.addr + p.len) :=
+  Footprint.fmPiecesS_bytes_iff fm y0 x0 c0 shifts B
+
+/-- with the same shift `s` on all four tiles `fmPiecesS` is `fmPieces` with every tag shifted by `s` — exactly
+    what the former single-shift checker compared against; in particular no shift gives `fmPieces` -/
+theorem fmPiecesS_uniform (fm : FM) (y0 x0 c0 : Nat) (shifts : List Int) (s : Int)
+    (h : ∀ t, t < 4 → tileShift shifts t = s) :
+    fmPiecesS fm y0 x0 c0 shifts = shiftPieces s (fmPieces fm y0 x0 c0) :=
+  Footprint.fmPiecesS_uniform fm y0 x0 c0 shifts s h
+
+theorem fmPiecesS_zero (fm : FM) (y0 x0 c0 : Nat) : fmPiecesS fm y0 x0 c0 [0, 0, 0, 0] = fmPieces fm y0 x0 c0 :=
+  Footprint.fmPiecesS_zero fm y0 x0 c0
+
+/-- the two tiles of `exNhwc` (bases 0 and 1000) with different shifts: each piece gets its own tile's shift -/
+example : fmPiecesS exNhwc 5 0 0 [4, -9, 0, 0] =
+    [⟨0, 3, 164⟩, ⟨8, 3, 164⟩, ⟨1000, 3, -833⟩, ⟨1008, 3, -833⟩, ⟨32, 3, 164⟩, ⟨40, 3, 164⟩, ⟨1032, 3, -833⟩, ⟨1040, 3, -833⟩] := by
+  decide
+example : tileOf exNhwc 1 3 = 1 ∧ tileOf exNhwc 1 1 = 0 ∧ tileOf exNhwc 5 3 = 3 ∧ tileOf exNhwc 4 0 = 2 := by decide
+example : ∀ t, t < 4 → tileShift [7, 7, 7, 7] t = 7 := by decide
+
 /-! ## the bounds check at element granularity -/
 
 /-- If `checkAccessBounds` reports nothing for a feature-map access then the region is published and every
@@ -198,7 +246,7 @@ theorem checkBounds_sound_block_elements (e : Env) (ops : List DecOp) (infos : L
 
 def exBlock : BlockOp := { (default : BlockOp) with ifm := exNhwc, ofm := { exB16 with region := 2 } }
 def exInfo : OpInfo :=
-  { ifm := ⟨7, 5, 0, 0, 0⟩, ifm2 := default, ofm := ⟨8, 0, 0, 16, 0⟩, wsrc := [], ssrc := [], lutsrc := -1, lutLen := 0 }
+  { ifm := ⟨7, 5, 0, 0, [0, 0, 0, 0]⟩, ifm2 := default, ofm := ⟨8, 0, 0, 16, [0, 0, 0, 0]⟩, wsrc := [], ssrc := [], lutsrc := -1, lutLen := 0 }
 example : checkBounds { extents := [(0, 64), (1, 1043), (2, 488)], shramBytes := 16384, lutBase := 14336 }
     [.block exBlock] [.block exInfo] = [] := by decide
 example : checkBounds { extents := [(0, 64), (1, 1043), (2, 487)], shramBytes := 16384, lutBase := 14336 }
